@@ -8,6 +8,9 @@ import PyElf.Spec.DieTree
 import PyElf.Model.Die
 import PyElf.Model.Env
 import PyElf.Proofs.DieForms
+import PyElf.Proofs.DieAbbrev
+import PyElf.Proofs.DieTop
+import PyElf.Spec.DwarfLookup
 namespace PyElf.Props.TieC04
 open PyElf PyElf.Spec.C04
 
@@ -38,5 +41,100 @@ theorem enum_children : Model.genEnumDecode "ENUM_DW_CHILDREN" 0 = some "DW_CHIL
 theorem form_table (c : DwarfCfg) (k : Nat) (hk : k ∈ formCodes) :
     (Spec.dwarfStructs c).form ((formName k).getD "") = (formClass c k).map (Proofs.C04.clsCon c.le) :=
   Proofs.C04.form_lookup c k hk
+
+/-! ### the names the abbreviation struct's lambdas compare against -/
+
+theorem decodeIn_mem (t : List (String × Int)) (v : Int) (k : String) :
+    ∀ acc : Option String, t.foldl (fun acc (p : String × Int) => if p.2 = v then some p.1 else acc) acc = some k →
+      (k, v) ∈ t ∨ acc = some k := by
+  induction t with
+  | nil => intro acc h; exact Or.inr h
+  | cons p t ih =>
+    intro acc h
+    rw [List.foldl_cons] at h
+    rcases ih _ h with h' | h'
+    · exact Or.inl (List.mem_cons_of_mem _ h')
+    · by_cases e : p.2 = v
+      · rw [if_pos e] at h'
+        injection h' with h'
+        exact Or.inl (by rw [← h', ← e]; exact List.mem_cons_self)
+      · rw [if_neg e] at h'; exact Or.inr h'
+
+/-- in the regenerated table `tid`, the name `name` belongs to the value `v` only -/
+def onlyAt (tid name : String) (v : Int) : Bool :=
+  match Gen.tables.find? (·.1 == tid) with
+  | some (_, t, _) => t.all fun p => p.1 != name || p.2 == v
+  | none => true
+
+theorem genEnumDecode_only {tid name : String} {v : Int} (h : onlyAt tid name v = true) (n : Int)
+    (hn : Model.genEnumDecode tid n = some name) : n = v := by
+  unfold onlyAt at h
+  unfold Model.genEnumDecode at hn
+  cases hf : Gen.tables.find? (·.1 == tid) with
+  | none => rw [hf] at hn; cases hn
+  | some e =>
+    obtain ⟨a, t, b⟩ := e
+    rw [hf] at h hn
+    simp only [List.all_eq_true, Bool.or_eq_true, bne_iff_ne, ne_eq, beq_iff_eq] at h
+    rcases decodeIn_mem t n name none hn with hm | hm
+    · rcases h _ hm with h' | h'
+      · exact absurd rfl h'
+      · exact h'
+    · cases hm
+
+/-- the regenerated registry has what `_parse_abbrev_table` relies on (ENUM_DW_CHILDREN = {0, 1};
+    DW_AT_null / DW_FORM_null are 0 and nothing else is; DW_FORM_implicit_const is 0x21 and nothing else is) -/
+theorem enum_ok : Proofs.C04.EnumOK Model.genEnumDecode where
+  children0 := enum_children.1
+  children1 := enum_children.2
+  at_null := fun n => ⟨fun h => by
+      have := genEnumDecode_only (tid := "ENUM_DW_AT") (name := "DW_AT_null") (v := 0) (by decide +kernel) n h
+      omega,
+    fun h => by subst h; decide +kernel⟩
+  form_null := fun n => ⟨fun h => by
+      have := genEnumDecode_only (tid := "ENUM_DW_FORM") (name := "DW_FORM_null") (v := 0) (by decide +kernel) n h
+      omega,
+    fun h => by subst h; decide +kernel⟩
+  form_implicit := fun n => ⟨fun h => by
+      have := genEnumDecode_only (tid := "ENUM_DW_FORM") (name := "DW_FORM_implicit_const") (v := 0x21) (by decide +kernel) n h
+      omega,
+    fun h => by subst h; decide +kernel⟩
+
+/-- `ENUM_DW_UT` (the DWARF 5 unit header's switch key) names the six unit types as the standard does -/
+theorem enum_ut : ∀ k : Nat, 1 ≤ k → k ≤ 6 → Model.genEnumDecode "ENUM_DW_UT" k = Spec.Lookup.utName k := by
+  intro k h1 h6
+  have : k = 1 ∨ k = 2 ∨ k = 3 ∨ k = 4 ∨ k = 5 ∨ k = 6 := by omega
+  rcases this with rfl | rfl | rfl | rfl | rfl | rfl <;> decide +kernel
+
+theorem gen_at_iff {name : String} {v : Nat} (h1 : onlyAt "ENUM_DW_AT" name v = true)
+    (h2 : Model.genEnumDecode "ENUM_DW_AT" v = some name) (k : Nat) :
+    ((Proofs.C04.namesOf Model.genEnumDecode).at_ k == Val.str name) = (k == v) := by
+  show (Proofs.Engine.enumVal Model.genEnumDecode "ENUM_DW_AT" k == Val.str name) = _
+  rw [Proofs.C04.enumVal_beq_str]
+  by_cases hk : k = v
+  · subst hk; simp [h2]
+  · have : ¬ Model.genEnumDecode "ENUM_DW_AT" k = some name := fun h => by
+      have := genEnumDecode_only h1 k h; omega
+    simp [this, hk]
+
+/-- the regenerated `ENUM_DW_AT` presents DW_AT_str_offsets_base / addr_base / rnglists_base / loclists_base
+    (0x72, 0x73, 0x74, 0x8c) under these names and nothing else under them -/
+theorem base_names : Proofs.C04.BaseNames (Proofs.C04.namesOf Model.genEnumDecode) where
+  strOffsets := gen_at_iff (v := 0x72) (by decide +kernel) (by decide +kernel)
+  addr := gen_at_iff (v := 0x73) (by decide +kernel) (by decide +kernel)
+  rnglists := gen_at_iff (v := 0x74) (by decide +kernel) (by decide +kernel)
+  loclists := gen_at_iff (v := 0x8c) (by decide +kernel) (by decide +kernel)
+
+/-- any registry: names are strings or numbers, hence equal to themselves and never `None` -/
+theorem names_refl (ed : String → Int → Option String) (k : Nat) :
+    ((Proofs.C04.namesOf ed).at_ k == (Proofs.C04.namesOf ed).at_ k) = true := by
+  show (Proofs.Engine.enumVal ed "ENUM_DW_AT" k == Proofs.Engine.enumVal ed "ENUM_DW_AT" k) = true
+  unfold Proofs.Engine.enumVal
+  cases ed "ENUM_DW_AT" k <;> simp [BEq.beq, Val.beq]
+
+theorem names_tag (ed : String → Int → Option String) (x : Nat) : (Proofs.C04.namesOf ed).tag x ≠ Val.none := by
+  show Proofs.Engine.enumVal ed "ENUM_DW_TAG" x ≠ Val.none
+  unfold Proofs.Engine.enumVal
+  cases ed "ENUM_DW_TAG" x <;> simp
 
 end PyElf.Props.TieC04
